@@ -490,11 +490,11 @@ pub fn run_shutdown(focus: &'static str, seed: u64, index: u64) -> CaseOut {
 
 pub fn run_stall(focus: &'static str, seed: u64, index: u64) -> CaseOut {
     let mut rng = rt::rng_for(seed, index, 0x57);
-    let pool = *rng.pick(&[1usize, 2, 32]);
-    let buf = *rng.pick(&[1usize, 2, 64]);
+    // sizes down to 1, the defaults (32 x 64), and sizes beyond any internal chunking (a buffer of 300 or 1000 records, a pool of 300 or 1024 buffers)
+    let (pool, buf) = *rng.pick(&[(1usize, 1usize), (1, 2), (1, 64), (2, 1), (2, 2), (2, 64), (32, 1), (32, 2), (32, 64), (1, 300), (2, 1000), (300, 1), (1024, 2)]);
     let readers = *rng.pick(&[1usize, 2, 4, 8, 16]);
     let variant = index % 3; // 0: gate (no lock held), 1: slow consumer (delays), 2: free-running with inequality sampling
-    let sutcfg = SutCfg { counters: *rng.pick(&[2u64, 10, 1000]), capacity: 64, max_weight: 1_000_000, shards: 2, cmd_buf: 64, pool, buf, tick: Duration::from_millis(1),
+    let sutcfg = SutCfg { counters: *rng.pick(&[1u64, 2, 10, 1000]), capacity: 64, max_weight: 1_000_000, shards: 2, cmd_buf: 64, pool, buf, tick: Duration::from_millis(1),
         weight_mode: WeightMode::Default, hash_mode: if rng.chance(1, 3) { HashMode::Constant } else { HashMode::Default }, start_ns: rt::START_NS };
     let case = J::obj().with("engine", J::s("conc")).with("scenario", J::s("stall")).with("focus", J::s(focus)).with("seed", J::Int(seed as i128))
         .with("index", J::Int(index as i128)).with("pool", J::u(pool)).with("buffer", J::u(buf)).with("readers", J::u(readers)).with("variant", J::Int(variant as i128));
@@ -1084,13 +1084,16 @@ pub fn run_release(focus: &'static str, seed: u64, index: u64) -> CaseOut {
 /// (never `KeyAlreadyExists`); and after deleting everything the total is zero.
 pub fn run_fanout(focus: &'static str, seed: u64, index: u64) -> CaseOut {
     let mut rng = rt::rng_for(seed, index, 0xFA0);
-    let threads = *rng.pick(&[4usize, 8, 16]);
-    let per_thread = rng.range(40, 160);
+    // mode 0: half of the keys expire 1-3 s later; mode 1 ("burst"): well over a thousand keys, all with the same time-to-live, come due in ONE
+    // sweep of ONE shard; mode 2: the same burst, and every key is deleted by the client while that sweep is evicting them
+    let mode = index % 3;
+    let threads = if mode == 0 { *rng.pick(&[4usize, 8, 16]) } else { *rng.pick(&[8usize, 16]) };
+    let per_thread = if mode == 0 { rng.range(40, 160) } else { rng.range(150, 220) };
     let shards = *rng.pick(&[2usize, 4]);
     let sutcfg = SutCfg { counters: 10_000, capacity: 4096, max_weight: 1_000_000_000, shards, cmd_buf: *rng.pick(&[8usize, 64, 32_768]), pool: 2, buf: 4, tick: Duration::from_millis(1),
         weight_mode: WeightMode::Custom, hash_mode: HashMode::Default, start_ns: rt::START_NS };
     let case = J::obj().with("engine", J::s("conc")).with("scenario", J::s("fanout")).with("focus", J::s(focus)).with("seed", J::Int(seed as i128)).with("index", J::Int(index as i128))
-        .with("threads", J::u(threads)).with("keys_per_thread", J::Int(per_thread as i128)).with("ttl_shards", J::u(shards));
+        .with("threads", J::u(threads)).with("keys_per_thread", J::Int(per_thread as i128)).with("ttl_shards", J::u(shards)).with("mode", J::s(["mixed time-to-live", "burst expiry", "burst expiry with deletes during the sweep"][mode as usize]));
     let mut counts = Counts::default();
     let mut findings = Vec::new();
     rt::clear_abort();
@@ -1114,9 +1117,9 @@ pub fn run_fanout(focus: &'static str, seed: u64, index: u64) -> CaseOut {
             for i in 0..per_thread {
                 let key = (t as u64 + 1) * 100_000 + i;
                 let weight = 30 + (i % 7) as i64;
-                let with_ttl = i % 2 == 0;
+                let with_ttl = mode != 0 || i % 2 == 0;
                 let value = client.token(key);
-                let op = if with_ttl { WriteOp::PutWTtl { key, value, weight, ttl: Duration::from_secs(1 + i % 3) } } else { WriteOp::PutW { key, value, weight } };
+                let op = if with_ttl { WriteOp::PutWTtl { key, value, weight, ttl: Duration::from_secs(if mode == 0 { 1 + i % 3 } else { 1 }) } } else { WriteOp::PutW { key, value, weight } };
                 let at = client.write(&cache, op);
                 mine.push((key, weight, with_ttl, at));
             }
@@ -1170,6 +1173,16 @@ pub fn run_fanout(focus: &'static str, seed: u64, index: u64) -> CaseOut {
         if findings.is_empty() && added != held { fail(&mut findings, &["C16"], "C16/keys-added-differs-from-held/fanout".into(), format!("KeysAdded {} but {} keys are held (nothing deleted yet)", added, held), case.clone()); }
         counts.inc("fanout_accounting_checks");
         sig = fnv_step(sig, (threads as u64) << 8 | shards as u64);
+        if mode != 0 { counts.add("keys_coming_due_in_one_sweep_of_one_shard", accepted.len() as u64); }
+        if mode == 2 && findings.is_empty() {
+            // one jump past every deadline, and at once the client deletes every key: the worker's deletes and the sweeper's evictions of the
+            // same ids run side by side
+            sut.advance(3 * NS);
+            let mut deleter = Client::new(97);
+            for p in accepted.iter() { deleter.write(&sut.cache, WriteOp::Delete { key: p.0 }); }
+            deleter.settle_all(&marks);
+            counts.add("deletes_issued_while_the_sweeper_was_evicting_the_same_keys", accepted.len() as u64);
+        }
         // let every time-to-live pass and the sweeps go round
         if findings.is_empty() {
             for _ in 0..(shards as u64 + 5) {
